@@ -447,6 +447,10 @@ func backoff(baseDelay, maxDelay time.Duration, retries int) time.Duration {
 	if backoff > max {
 		backoff = max
 	}
+	if backoff == max {
+		// Return the limit itself: float64(maxDelay) may not fit back into an int64.
+		return maxDelay
+	}
 	return time.Duration(backoff)
 }
 
